@@ -149,6 +149,7 @@ type Session struct {
 	Disagree  []string
 	preferred int
 	lastAnswered *backend
+	FeasOnly     bool // set around feasibility queries (see pathCtx.feas)
 }
 
 func NewSession(specs ...BackendSpec) *Session {
@@ -310,7 +311,14 @@ func (s *Session) Check(extra *Term, timeoutMs int) Result {
 	n := len(s.backends)
 	for k := 0; k < n; k++ {
 		b := s.backends[(s.preferred+k)%n]
-		r := s.checkOn(b, ref, timeoutMs)
+		if s.FeasOnly && !strings.HasPrefix(b.spec.Name, "z3") {
+			continue // feasibility queries: only back ends with a per-query cap
+		}
+		tm := timeoutMs
+		if s.FeasOnly && k > 0 {
+			tm = timeoutMs / 2
+		}
+		r := s.checkOn(b, ref, tm)
 		if r != Unknown {
 			s.lastAnswered = b
 			if r == Sat {
